@@ -224,10 +224,15 @@ func bootCrew(ctx context.Context, c gen.CrewCase) (*sio.Crew, error) {
 	return cr, nil
 }
 
-// relayCounters: for every machine that is waiting at "listen", its message counter.
+// relayCounters: for every machine that is waiting at "listen", its message counter (and a marker
+// for every machine that exists).
 func relayCounters(c *sio.Crew) map[string]float64 {
 	acc := map[string]float64{}
 	for mid, m := range c.Machines {
+		acc["\x00exists:"+mid] = 1
+		if m.State != nil && m.State.NodeName == "start" {
+			acc["\x00atstart:"+mid] = 1
+		}
 		if mid == sio.CaptainMachine || mid == sio.TimersMachine || m.State == nil || m.State.NodeName != "listen" {
 			continue
 		}
@@ -242,19 +247,40 @@ func relayCounters(c *sio.Crew) map[string]float64 {
 // that waits at "listen" before and after the round has counted exactly the depth-carrying messages
 // addressed to it.  Rounds with crew operations, unrouted or "*" messages are not judged (who is
 // addressed then depends on the crew's membership during the round).
-func relayRoundAccounted(msg interface{}, r *sio.Result, before, after map[string]float64) bool {
+func relayRoundAccounted(msg interface{}, r *sio.Result, before, after map[string]float64, members map[string]bool) bool {
 	processed := []interface{}{msg}
 	for _, batch := range r.Emitted {
 		processed = append(processed, batch...)
 	}
 	want := map[string]float64{}
+	created := map[string]bool{}
 	for _, m := range processed {
 		mm, is := m.(map[string]interface{})
 		if !is {
 			return true
 		}
-		if _, op := mm["update"]; op {
-			return true
+		if up, op := mm["update"]; op {
+			// a machine created in this round (new id, a spec, no state) starts counting from here;
+			// any other crew operation leaves the round unjudged
+			um, is := up.(map[string]interface{})
+			if !is || mm["to"] != sio.CaptainMachine {
+				return true
+			}
+			for mid, x := range um {
+				xm, is := x.(map[string]interface{})
+				if !is || members[mid] || created[mid] {
+					return true
+				}
+				if _, hasSpec := xm["spec"]; !hasSpec {
+					return true
+				}
+				if _, hasState := xm["state"]; hasState {
+					return true
+				}
+				created[mid] = true
+				delete(want, mid) // what was addressed to it before it existed went nowhere
+			}
+			continue
 		}
 		if _, op := mm["delete"]; op {
 			return true
@@ -293,6 +319,21 @@ func relayRoundAccounted(msg interface{}, r *sio.Result, before, after map[strin
 			return false
 		}
 	}
+	for mid := range created {
+		if n1, listening := after[mid]; listening && n1 != want[mid] {
+			return false
+		}
+		if _, listening := after[mid]; !listening && want[mid] > 0 && !members[mid] {
+			// it was handed work and is neither waiting nor counted: look whether it exists at all
+			if _, exists := after["\x00exists:"+mid]; !exists {
+				return false
+			}
+			// handed work, yet still where it was put: it never walked
+			if _, idle := after["\x00atstart:"+mid]; idle {
+				return false
+			}
+		}
+	}
 	return true
 }
 
@@ -318,8 +359,12 @@ func runOneCrew(id int, c gen.CrewCase) (line crewLine) {
 	for _, msg := range c.History {
 		cap0, tim0 := serviceState(cr, sio.CaptainMachine), serviceState(cr, sio.TimersMachine)
 		before := relayCounters(cr)
+		members := map[string]bool{}
+		for mid := range cr.Machines {
+			members[mid] = true
+		}
 		r, err := cr.ProcessMsg(ctx, gen.DeepCopy(msg))
-		if err == nil && !relayRoundAccounted(msg, r, before, relayCounters(cr)) {
+		if err == nil && !relayRoundAccounted(msg, r, before, relayCounters(cr), members) {
 			fedBackCount = false
 		}
 		if err != nil {
